@@ -49,7 +49,7 @@ static bool always_terminates(int code)
 }
 
 static const unsigned char LETTERS[4] = {'a', ' ', 0x00, 0xE9};
-static const uint32_t CPS[] = {1, 0x41, 0x7F, 0x80, 0x7FF, 0x800, 0xFFFF, 0x10000, 0x1FFFFF, 0x200000, 0x3FFFFFF, 0x4000000, 0x7FFFFFFF};
+static const uint32_t CPS[] = {0, 0x80000000u, 1, 0x41, 0x7F, 0x80, 0x7FF, 0x800, 0xFFFF, 0x10000, 0x1FFFFF, 0x200000, 0x3FFFFFF, 0x4000000, 0x7FFFFFFF};
 // trim sets: 0 = default (isspace), then explicit sets (length-delimited, may contain NUL)
 static const char *TRIMSET[4] = {"", "a", " \0", "\xE9" "a"};
 static const size_t TRIMLEN[4] = {0, 1, 2, 2};
@@ -59,6 +59,7 @@ static std::string ref_utf8(uint32_t c)
 {
     std::string s;
     c &= 0x7FFFFFFF;
+    if (c == 0) { return s; } // U+0000 encodes to nothing (the library's convention); the string must still end up terminated
     if (c < 0x80) { s += (char)c; }
     else if (c < 0x800) { s += (char)(0xC0 | (c >> 6)); s += (char)(0x80 | (c & 0x3F)); }
     else if (c < 0x10000) { s += (char)(0xE0 | (c >> 12)); s += (char)(0x80 | ((c >> 6) & 0x3F)); s += (char)(0x80 | (c & 0x3F)); }
